@@ -24,8 +24,9 @@ prop(
     claimed=True,
     technique="contract-based deductive verification: symbolic execution of the real Python source against sidecar contracts, VCs to z3/cvc5; bounded contract check on real files as labelled stand-in for C-backed readers",
     level_text="Cursor representation invariant and read/seek/tell/len postconditions proved for the pure-Python file classes for symbolic "
-    "N, pos, n (all finite operation sequences by induction). C/Cython-backed readers are covered only by the bounded check (all op "
-    "sequences up to length 3/4), which is labelled bounded in evidence.",
+    "N, pos, n (all finite operation sequences by induction); for DCD the two C functions every seek goes through: dcd_rewind (position 0, frame count untouched) "
+    "and skip_dcdstep (skips exactly one frame for every flag combination). The Cython file classes themselves (xtc/trr/dcd/dtr) and the text readers are covered only "
+    "by the bounded check (all op sequences up to length 3/4), which is labelled bounded in evidence.",
     level_note="Trusted: the VC generator and its models of numpy slicing, PyTables/netCDF4 nodes, text-file line readers; reals/ints mathematical; Cython/C readers not proved.",
     trusted=["numpy.basic-slicing", "mdtraj.utils.in_units_of"],
     assumptions=[
@@ -293,7 +294,8 @@ _TEXTS = {
             "position); the iterload generator by a chunk-loop invariant (start frame skip+k*chunk*stride, sizes, stride, atoms, termination only when nothing is "
             "left; chunk=0 and PDB delegation stated semantically); load_pdb(frame=i) time; md.load (one loader call per file with the caller's stride / "
             "atom_indices / topology, joined in order, caller's topology left unmodified); the load_<format> glue (frame=i: seek(i) then one frame); read_as_traj of the "
-            "pure-Python file classes (delegates partial loading to read once, restricts the topology iff atom_indices). Bounded only: the Cython/C readers (xtc, trr, "
+            "pure-Python file classes (delegates partial loading to read once, restricts the topology iff atom_indices, frame k of a reader without stored times is "
+            "file frame position+k*stride); skip_dcdstep skips exactly one frame of the DCD format for every flag combination. Bounded only: the Cython/C readers (xtc, trr, "
             "dcd, dtr, binpos), the text parsers themselves."),
     "C04": (_T_PY, "Deductive: the real Topology/Chain/Residue/Atom/Bond code on a fixed shape (2 chains, 3 residues, 5 atoms, 4 typed bonds) with symbolic "
             "resSeq/serial: copy/__copy__/__deepcopy__, subset for all 31 subsets, join, in-place edits, ==/hash: abstract view equality, well-formedness, bond "
@@ -303,12 +305,15 @@ _TEXTS = {
             "wrap bounds, box reduction keeps the lattice, all 27 images examined, result is one of them and not longer than any, d^2=|out|^2, frame conditions; lemma L1; "
             "compute_distances_core dispatch (minimum-image path iff periodic and cell; orthorhombic kernel iff every frame orthogonal; box transposed once); "
             "the time-pair kernels dist_t / dist_mic_t (atom a from frame t1, atom b from frame t2, cell of t1). "
-            "Bounded only: float32 effects, dist_mic_triclinic_t, the NumPy reference path (opt=False), displacement wrappers."),
+            "The NumPy reference path (opt=False): _distance, _displacement, _reduce_box_vectors (lattice-preserving, reduced), _distance_mic (wrapped vector in the "
+            "centred cell, minimum over its 27 images) on symbolic coordinates. Bounded only: float32 effects, dist_mic_triclinic_t, _displacement_mic, the _t reference paths."),
     "C06": (_T_C, "Deductive: msdFromMandG on a symbolic inner-product matrix: the code's C_2, C_1, C_0 are the coefficients of det(K - xI) for the Horn/Theobald key "
             "matrix K(M) (exact polynomial identities on the code's own terms), Horn's identity q^T K q = <R(q), M>, msd = max(0,(G_x+G_y-2 lambda)/N), the code's quaternion is "
             "the cofactor vector of K - lambda I (an eigenvector), rot = R(q/|q|) with R^T R = I and det R = +1; Trajectory.superpose / center_coordinates keep the trace "
-            "cache consistent. ASSUMED: DirectSolve returns the largest root of the quartic. Bounded only: the SSE accumulation kernels (M, G, centring), _rmsd.pyx, lprmsd, "
-            "float32 effects, the 1e-11 identity threshold (known finding)."),
+            "cache consistent; the SSE kernels for 1..9 atoms (every remainder modulo the SIMD width, intrinsics as lane operations, shuffle immediates read from the real "
+            "header): msd_atom_major builds M[3i+j] = sum a_i b_j, inplace_center_and_trace_atom_major shifts every frame by its own mean and stores its trace, "
+            "rot_atom_major applies x' = x.R -- the index conventions of the three kernels and of Horn's identity agree. ASSUMED: DirectSolve returns the largest "
+            "root of the quartic. Bounded only: atom counts above 9, _rmsd.pyx / lprmsd glue, float32 effects, the 1e-11 identity threshold (known finding)."),
     "C07": (_T_C, "Deductive: the six angle/dihedral kernels for all frames and items, modularly over the distance kernels' contracts (atom pairs, formula "
             "acos(clip(u.v/|u||v|)), atan2 form of the dihedral with its sign, output index, matching distance variant); reversal/mirror lemmas (sympy); torsion atom tables; "
             "_atom_sequence on 4 topologies; dispatch of compute_angles/compute_dihedrals (orthogonal flag over all frames). Bounded only: float32, chi/phi/psi on real proteins."),
@@ -345,7 +350,9 @@ _TEXTS = {
             "the relation and bounded in the chain length. Bounded only: longer chains and real proteins (independent implementation of the DSSP rules)."),
     "C16": (_T_PY, "Deductive: compute_contacts for all schemes x explicit/'all' pairs x min/soft-min on a topology with unequal residue sizes and symbolic distances (value "
             "= min or soft-min over exactly the designated atom pairs of the returned label); compute_rdf shell normalisation and histogram convention; centre of "
-            "geometry/mass, gyration tensor, Rg as closed forms on symbolic coordinates. Bounded only: DRID, nematic order, dipoles, J-couplings, principal moments, density, float32."),
+            "geometry/mass, gyration tensor, Rg as closed forms on symbolic coordinates; DRID: the running-moments object keeps mean / sum of squared / cubed deviations "
+            "(rational-function identities, all push sequences by induction) and drid_moments returns mean, sqrt(variance), cbrt(third central moment) of the reciprocal "
+            "distances to all partners (loop invariant). Bounded only: DRID partner exclusion (drid.pyx), nematic order, dipoles, J-couplings, principal moments, density, float32."),
 }
 for _pid, (_t, _lt) in _TEXTS.items():
     PROPS[_pid].update(technique=_t, level_text=_lt, level_note=_N, explanation=_lt.split("Bounded only:")[0].strip())
